@@ -413,7 +413,7 @@ Push(t, sh, args) ==
   /\ store' = st
   /\ UNCHANGED <<phase, res, tab>>
 
-NoRes == [d |-> "none", out |-> <<"none">>]
+NoRes == [d |-> "none", out |-> <<"none">>, vals |-> << >>]
 \* shapes of the atoms, computed from the constants
 RECURSIVE ShC(_, _)
 ShC(w, t) == CASE t[1] = "T" -> TermsC[w][t[2]].sh [] t[1] = "grad" -> 1 [] t[1] = "rv" -> TermsC[w][t[2]].sh
@@ -451,7 +451,9 @@ Applied == phase = "applied"
 Top == store[Len(store)].t
 Apply(d) ==
   /\ Len(store) >= 1
-  /\ res' = [d |-> d, out |-> P(Top, "0", d)]
+  \* vals: the meaning of the original integrand in every environment (computed once, read by the
+  \* invariants and the dump)
+  /\ res' = [d |-> d, out |-> P(Top, "0", d), vals |-> [e \in Envs |-> M(Top, e, "0")]]
   /\ phase' = "applied"
   /\ UNCHANGED <<store, tab>>
 
@@ -493,13 +495,13 @@ Accepted == ~IsRej(res.out)
 
 \* the two definitions of "has a two-sided meaning" agree
 MeaningIffValid ==
-  Applied => \A e \in Envs : (Len(M(Top, e, "0")) > 0) <=> Valid(Top, "0")
+  Applied => \A e \in Envs : (Len(res.vals[e]) > 0) <=> Valid(Top, "0")
 
 \* an accepted valid integrand keeps its value in every admissible environment, and the result
 \* has every side-dependent terminal directly below exactly one restriction
 Sound ==
   (Applied /\ Accepted /\ Valid(Top, "0")) =>
-     /\ \A e \in Envs : M(res.out, e, "0") = M(Top, e, "0")
+     /\ \A e \in Envs : M(res.out, e, "0") = res.vals[e]
      /\ Normal(res.out, res.d)
      /\ Valid(res.out, "0") /\ ~Nested(res.out, FALSE)
 
@@ -546,6 +548,6 @@ DumpRec ==
    valid |-> Valid(Top, "0"), nested |-> Nested(Top, FALSE),
    missing |-> SetToSeq(MissingKinds(Top, "0")),
    dev |-> Deviation, opp |-> NormalsOpposite,
-   vals |-> [e \in Envs |-> M(Top, e, "0")]]
+   vals |-> res.vals]
 DumpInv == (Applied /\ Live) => PrintT(ToJson(DumpRec))
 =============================================================================
